@@ -34,11 +34,18 @@ Kern(name) ==
 Queries(dim) == IF dim = 1 THEN << <<-2>>, <<0>>, <<1>>, <<3>> >>
                 ELSE << <<0, 0>>, <<2, -1>>, <<-3, 3>>, <<1, 1>> >>
 
+\* extreme query points for the calibrated-probability model: lattice directions scaled by 10, 100, 1000 on
+\* both sides, so that |decision value| reaches 10^2..10^4 and beyond (validity clauses only)
+ExtremeQ(dim) ==
+  IF dim = 1 THEN << <<-1000>>, <<-100>>, <<-10>>, <<10>>, <<100>>, <<1000>> >>
+  ELSE << <<10, 10>>, <<100, 100>>, <<1000, 1000>>, <<-10, -10>>, <<-100, -100>>, <<-1000, -1000>>,
+          <<10, -10>>, <<100, -100>>, <<1000, -1000>>, <<-10, 10>>, <<-100, 100>>, <<-1000, 1000>> >>
+
 Mk(kind, x, y, dim, kern, cp, cn, nu, cc, le, shr, ft, pr) ==
   [kind |-> kind,
    inp |-> [x |-> x, y |-> y, dim |-> dim, kern |-> Kern(kern), cp |-> cp, cn |-> cn, nu |-> nu,
             c |-> cc, le |-> le, shr |-> shr, ft |-> ft, tolx |-> IF ft = "f32" THEN 3 ELSE 7,
-            q |-> Queries(dim), pr |-> pr]]
+            q |-> Queries(dim), eq |-> IF pr THEN ExtremeQ(dim) ELSE <<>>, pr |-> pr]]
 
 One == <<1, 1>>
 Sorted(m, len) == {s \in [1..len -> 1..m] : \A i \in 1..(len - 1) : s[i] <= s[i + 1]}
